@@ -2,6 +2,8 @@
      tonic-web/src/call.rs     poll_encode, make_trailers_frame, encode_trailers,
                                poll_decode (Base64 and None), decode_chunk, max_decodable,
                                Encoding::{from_content_type, from_accept, to_content_type}
+                               GrpcWebCall as a Body on the server side: poll_frame (dispatch on
+                               the direction), is_end_stream, size_hint
      tonic-web/src/service.rs  RequestKind::new, GrpcWebService::call, coerce_request,
                                coerce_response
    An http body is a list of scripted poll results ([ev]); after the list the body answers
@@ -46,7 +48,7 @@ Definition inner_eos (mode : N) (evs : list ev) : bool :=
   else false.
 
 (* Body::size_hint of the scripted inner body: exact remaining data bytes when [hint], the
-   default (0, None) otherwise; GrpcWebCall::size_hint delegates to it (call.rs size_hint) *)
+   default (0, None) otherwise *)
 Definition inner_size_hint (hint : bool) (evs : list ev) : N * option N :=
   if hint then (nlen (concat (datas evs)), Some (nlen (concat (datas evs)))) else (0, None).
 
@@ -188,6 +190,73 @@ Definition poll_decode_none (evs : list ev) : sout * list ev :=
   | EvErr :: r => (SErr SE_INNER, r)
   end.
 
+(* ---------- GrpcWebCall as an http_body::Body (server side) ---------- *)
+(* The fields the Body impl looks at.  On the server side (client = false) [decoded] stays empty,
+   [trailers] stays None and [expect_trailers] / [inner_done] stay false (only the client branch
+   of poll_frame writes them), so the state is the direction, the encoding and the undecoded
+   base64 remainder [buf]. *)
+Inductive wdir := DDecode | DEncode | DEmpty.
+Record wcall := mkCall { wc_dir : wdir; wc_enc : encoding; wc_buf : list N }.
+Definition wc_set_buf (c : wcall) (b : list N) : wcall := mkCall (wc_dir c) (wc_enc c) b.
+
+(* GrpcWebCall::request / ::response / Default::default *)
+Definition wc_request (e : encoding) : wcall := mkCall DDecode e [].
+Definition wc_response (e : encoding) : wcall := mkCall DEncode e [].
+Definition wc_default : wcall := mkCall DEmpty NoEnc [].
+
+(* Body::poll_frame with client = false: `match self.direction` *)
+Definition wc_poll_frame (c : wcall) (evs : list ev) : sout * wcall * list ev :=
+  match wc_dir c with
+  | DDecode =>
+      match wc_enc c with
+      | Base64 => let '(o, b, r) := poll_decode_b64 (wc_buf c) evs in (o, wc_set_buf c b, r)
+      | NoEnc => let '(o, r) := poll_decode_none evs in (o, c, r)
+      end
+  | DEncode =>
+      match evs with
+      | [] => (poll_encode (wc_enc c) AEnd, c, [])
+      | x :: r => (poll_encode (wc_enc c) (answer_of x), c, r)
+      end
+  | DEmpty => (SNone, c, evs)
+  end.
+
+(* Body::is_end_stream; [inner_end] = self.inner.is_end_stream() *)
+Definition wc_is_end_stream (c : wcall) (inner_end : bool) : bool :=
+  match wc_dir c with
+  | DEmpty => true
+  | DEncode => inner_end
+  | DDecode => inner_end && (nlen (wc_buf c) =? 0)
+  end.
+
+(* Body::size_hint (fix 2dcb76d4, F-C16a); [inner_hint] = self.inner.size_hint():
+   only a binary request body has the length of the body it wraps *)
+Definition hint := (N * option N)%type.
+Definition wc_size_hint (c : wcall) (inner_hint : hint) : hint :=
+  match wc_dir c, wc_enc c with
+  | DEmpty, _ => (0, Some 0)
+  | DDecode, NoEnc => inner_hint
+  | _, _ => (0, None)
+  end.
+(* the hint the body gave before F-C16a was fixed *)
+Definition wc_size_hint_before_fix (c : wcall) (inner_hint : hint) : hint := inner_hint.
+
+(* what a size hint promises about the [n] bytes that are still to come *)
+Definition hint_covers (h : hint) (n : N) : Prop :=
+  fst h <= n /\ match snd h with Some u => n <= u | None => True end.
+
+(* poll [n] times and record EVERY result (Pending and errors included); only the end of the
+   body (or a panic) stops the consumer: errors are not final on the server side *)
+Fixpoint wc_polls (n : nat) (c : wcall) (evs : list ev) : list sout :=
+  match n with
+  | O => []
+  | S n' =>
+      match wc_poll_frame c evs with
+      | (SNone, _, _) => [SNone]
+      | (SPanic, _, _) => [SPanic]
+      | (o, c', r) => o :: wc_polls n' c' r
+      end
+  end.
+
 (* ---------- draining a body the way a consumer does ---------- *)
 (* Poll until the body ends or fails; Pending results are re-polled and not recorded.
    [n] bounds the number of polls (the harness' cap; 98 = cap reached). *)
@@ -257,8 +326,9 @@ Definition coerce_request_headers (h : hm) : hm :=
   hm_insert (hm_insert (hm_insert (hm_remove h H_CONTENT_LENGTH)
      H_CONTENT_TYPE GRPC_CONTENT_TYPE) H_TE V_TRAILERS) H_ACCEPT_ENCODING V_ACCEPT_ENCODING.
 
+(* coerce_response (fix 7e0a074f, F-C16b: the content-length of the untranslated body goes) *)
 Definition coerce_response_headers (h : hm) (accept : encoding) : hm :=
-  hm_insert h H_CONTENT_TYPE (to_content_type accept).
+  hm_insert (hm_remove h H_CONTENT_LENGTH) H_CONTENT_TYPE (to_content_type accept).
 
 (* ---------- independent reading of a text body ---------- *)
 (* a grpc-web-text consumer decodes the stream quantum by quantum (4 characters), each
@@ -316,33 +386,43 @@ Definition obs_response (a : encoding) (revs : list ev) : tr := olist sout_tr (d
 (* a request body alone *)
 Definition obs_request (e : encoding) (qevs : list ev) : tr := olist sout_tr (drain_request e qevs).
 
-(* ---------- a hyper-like consumer of the response body ---------- *)
+(* ---------- hyper-like consumers ---------- *)
 (* hyper asks is_end_stream() before the first poll and after every data frame it has taken and
-   stops polling when the answer is true (the frame is sent with END_STREAM).
-   GrpcWebCall::is_end_stream delegates to the inner body (call.rs is_end_stream).
+   stops polling when the answer is true (the frame is sent with END_STREAM); it reads
+   size_hint() before the first poll (HTTP/1: an exact hint becomes the Content-Length).
    Result: the items taken, and whether the consumer stopped because of is_end_stream. *)
-Fixpoint hyper_encode (mode : N) (e : encoding) (evs : list ev) : list sout * bool :=
+Fixpoint hyper_encode_go (mode : N) (e : encoding) (evs : list ev) : list sout * bool :=
   match evs with
-  | [] => if inner_eos mode [] then ([], true) else ([SNone], false)
+  | [] => ([SNone], false)
   | x :: r =>
-      if inner_eos mode (x :: r) then ([], true)
-      else
-        match poll_encode e (answer_of x) with
-        | SPending => hyper_encode mode e r
-        | SData d => let '(l, b) := hyper_encode mode e r in (SData d :: l, b)
-        | o => ([o], false)
-        end
+      match poll_encode e (answer_of x) with
+      | SPending => hyper_encode_go mode e r
+      | SData d =>
+          if wc_is_end_stream (wc_response e) (inner_eos mode r) then ([SData d], true)
+          else let '(l, b) := hyper_encode_go mode e r in (SData d :: l, b)
+      | o => ([o], false)
+      end
   end.
+Definition hyper_encode (mode : N) (e : encoding) (evs : list ev) : list sout * bool :=
+  if wc_is_end_stream (wc_response e) (inner_eos mode evs) then ([], true)
+  else hyper_encode_go mode e evs.
 
-Definition hint_tr (h : N * option N) : tr := Nd [Nn (fst h); oopt Nn (snd h)].
-Definition obs_response_hyper (mode : N) (hint : bool) (a : encoding) (revs : list ev) : tr :=
+Definition hint_tr (h : hint) : tr := Nd [Nn (fst h); oopt Nn (snd h)].
+
+(* size_hint() of the body the caller of the layer receives: tonic::body::Body::new replaces a
+   body that is already at its end by Body::empty (exact 0), otherwise GrpcWebCall::size_hint *)
+Definition resp_size_hint (mode : N) (exact : bool) (a : encoding) (revs : list ev) : hint :=
+  if wc_is_end_stream (wc_response a) (inner_eos mode revs) then (0, Some 0)
+  else wc_size_hint (wc_response a) (inner_size_hint exact revs).
+Definition req_size_hint (mode : N) (exact : bool) (e : encoding) (qevs : list ev) : hint :=
+  if wc_is_end_stream (wc_request e) (inner_eos mode qevs) then (0, Some 0)
+  else wc_size_hint (wc_request e) (inner_size_hint exact qevs).
+
+Definition obs_response_hyper (mode : N) (exact : bool) (a : encoding) (revs : list ev) : tr :=
   let '(l, b) := hyper_encode mode a revs in
-  (* tonic::body::Body::new replaces a body that is already at its end by Body::empty *)
-  Nd [hint_tr (if inner_eos mode revs then (0, Some 0) else inner_size_hint hint revs);
-      olist sout_tr l; obool b].
+  Nd [hint_tr (resp_size_hint mode exact a revs); olist sout_tr l; obool b].
 
-(* the request body (Decode direction, base64) read by a hyper-like consumer; is_end_stream of
-   GrpcWebCall (fix f0f96413) = the inner body's AND the carry buffer is empty *)
+(* the request body (Decode direction) read by a hyper-like consumer *)
 Fixpoint hyper_b64 (n : nat) (mode : N) (buf : list N) (evs : list ev) : list sout * bool :=
   match n with
   | O => ([SCAP], false)
@@ -350,32 +430,52 @@ Fixpoint hyper_b64 (n : nat) (mode : N) (buf : list N) (evs : list ev) : list so
       match poll_decode_b64 buf evs with
       | (SPending, b, r) => hyper_b64 n' mode b r
       | (SData d, b, r) =>
-          if inner_eos mode r && (nlen b =? 0) then ([SData d], true)
+          if wc_is_end_stream (mkCall DDecode Base64 b) (inner_eos mode r) then ([SData d], true)
           else let '(l, e) := hyper_b64 n' mode b r in (SData d :: l, e)
       | (o, _, _) => ([o], false)
       end
   end.
-Definition obs_request_hyper (mode : N) (evs : list ev) : tr :=
-  if inner_eos mode evs then Nd [Nd []; Nn 1]
-  else let '(l, b) := hyper_b64 (b64_polls evs) mode [] evs in Nd [olist sout_tr l; obool b].
-
-(* ---------- the Encode direction as a state machine over (buf, inner body) ---------- *)
-(* GrpcWebCall has a staging buffer [buf]; poll_encode neither reads nor writes it: whatever
-   the inner body yields is translated and handed out in the same poll.  That is what makes
-   `Direction::Encode => self.inner.is_end_stream()` a correct is_end_stream: an encoder that
-   staged output in [buf] would have to look at [buf] there (Proofs/WebServer.v,
-   encode_is_end_stream_contract). *)
-Definition poll_encode_st (e : encoding) (buf : list N) (a : answer) : sout * list N :=
-  (poll_encode e a, buf).
-Definition encode_is_end_stream (mode : N) (buf : list N) (evs : list ev) : bool :=
-  inner_eos mode evs.
-Fixpoint drain_encode_st (e : encoding) (buf : list N) (evs : list ev) : list sout :=
+(* Encoding::None: one scripted event per poll (poll_decode_none); the consumer stops after a
+   trailers frame *)
+Fixpoint hyper_none (mode : N) (evs : list ev) : list sout * bool :=
   match evs with
-  | [] => [SNone]
+  | [] => ([SNone], false)
   | x :: r =>
-      match poll_encode_st e buf (answer_of x) with
-      | (SPending, b) => drain_encode_st e b r
-      | (SData d, b) => SData d :: drain_encode_st e b r
-      | (o, _) => [o]
+      match fst (poll_decode_none [x]) with
+      | SPending => hyper_none mode r
+      | SData d =>
+          if wc_is_end_stream (wc_request NoEnc) (inner_eos mode r) then ([SData d], true)
+          else let '(l, e) := hyper_none mode r in (SData d :: l, e)
+      | o => ([o], false)
       end
   end.
+Definition hyper_request (e : encoding) (mode : N) (evs : list ev) : list sout * bool :=
+  if wc_is_end_stream (wc_request e) (inner_eos mode evs) then ([], true)
+  else match e with
+       | Base64 => hyper_b64 (b64_polls evs) mode [] evs
+       | NoEnc => hyper_none mode evs
+       end.
+Definition obs_request_hyper (e : encoding) (mode : N) (exact : bool) (evs : list ev) : tr :=
+  let '(l, b) := hyper_request e mode evs in
+  Nd [hint_tr (req_size_hint mode exact e evs); olist sout_tr l; obool b].
+
+(* ---------- every poll result, errors are not final ---------- *)
+Definition obs_polls_request (e : encoding) (n : nat) (qevs : list ev) : tr :=
+  olist sout_tr (wc_polls n (wc_request e) qevs).
+Definition obs_polls_response (a : encoding) (n : nat) (revs : list ev) : tr :=
+  olist sout_tr (wc_polls n (wc_response a) revs).
+(* GrpcWebCall::default(): Direction::Empty *)
+Definition obs_default_call (n : nat) (evs : list ev) : tr :=
+  Nd [obool (wc_is_end_stream wc_default false); hint_tr (wc_size_hint wc_default (inner_size_hint true evs));
+      olist sout_tr (wc_polls n wc_default evs)].
+
+(* ---------- the translated response as an HTTP/1.1 server writes it ---------- *)
+(* hyper (http1 server connection): no content-length header comes from the layer and the size
+   hint is not exact, so the body is sent chunked: after transfer-decoding, the bytes on the
+   wire are the bytes of the data items.  Observable: the content-length values of the
+   response head, the transfer-decoded body. *)
+Definition sdata_bytes (o : sout) : list N := match o with SData d => d | _ => [] end.
+Definition out_bytes (l : list sout) : list N := concat (map sdata_bytes l).
+Definition obs_wire (rheaders : hm) (a : encoding) (revs : list ev) : tr :=
+  Nd [olist Bs (hm_get_all (coerce_response_headers rheaders a) H_CONTENT_LENGTH);
+      Bs (out_bytes (drain_encode a revs))].
